@@ -101,7 +101,8 @@ OpCases == {[kind |-> "op", op |-> o, l |-> l, r |-> r, ctx |-> c] :
               o \in {"-", "+", "&&", "<"}, l \in Types \ {"int?", "str?"}, r \in Types \ {"int?", "str?"}, c \in {"module", "fn"}}
 
 (* two modules each declare a class of the same name: a value of one is not a value of the other *)
-XLib == <<"export class Pt {", "	name: str", "	constructor(self, name: str) {", "		self.name = name", "	}", "}",
+\* (the foreign Pt has a member of the same name as the local Pt, of another type)
+XLib == <<"export class Pt {", "	q: str", "	constructor(self, q: str) {", "		self.q = q", "	}", "}",
           \* a class that is *not* exported, declared after an exported one
           "class Hidden {", "	z: int", "	constructor(self) {", "		self.z = 1", "	}", "}",
           "export mkpt: fn() -> Pt = fn() -> Pt { return Pt(\"o\") }">>
